@@ -82,3 +82,20 @@ Theorem C03_history_one_answer_each : forall eqfold tagfix mx evs,
   length (List.filter (fun e => match e with EvServe _ => true | EvReg _ => false end) evs).
 Proof. exact run_events_length. Qed.
 Print Assumptions C03_history_one_answer_each.
+
+(* a route that matches a request keeps it whatever is registered afterwards
+   (routes, default routes, unbind routes, nil handlers): precedence is by
+   registration order alone *)
+Theorem C03_stable_under_registrations : forall eqfold tagfix gs mx m h,
+  first_match eqfold (routes mx) m = Some h ->
+  serve eqfold tagfix (fold_left (fun m g => fst (register m g)) gs mx) m = Run h.
+Proof. exact serve_stable_under_registrations. Qed.
+Print Assumptions C03_stable_under_registrations.
+
+(* the default route is a fallback wherever it is registered: a matching route
+   registered after it still gets the request *)
+Theorem C03_route_beats_default : forall eqfold tagfix mx r h d m,
+  first_match eqfold (routes mx) m = None -> matches eqfold r m = true ->
+  serve eqfold tagfix (fst (register (fst (register mx (RegDefault (Some d)))) (RegRoute r (Some h)))) m = Run h.
+Proof. exact serve_route_beats_default. Qed.
+Print Assumptions C03_route_beats_default.
